@@ -368,13 +368,13 @@ def exec_operands(spec, env):
         elif isinstance(a, sm.Differential):
             outs.append(rt.outcome(lambda: [a.component_at("x", pts["p"]), a.component(E.Variable("y")).at(pts["p"])] + (lambda ld: [ld.component("x")])(a.at(pts["p"]))))
             outs.append(rt.outcome(lambda: [b.component_at("x", pts["p"]), b.component(E.Variable("y")).at(pts["p"])] + (lambda ld: [ld.component("x")])(b.at(pts["p"]))))
-            outs.append(rt.outcome(lambda: repr(a.component("x").as_expression())))
-            outs.append(rt.outcome(lambda: repr(b.component("x").as_expression())))
+            outs.append(rt.outcome(lambda: bool(a.component("x").as_expression() == b.component("x").as_expression())))     # the library's own ==
+            outs.append({"kind": "value", "value": True})
         elif isinstance(a, (sm.Partial, sm.Derivative)):
             outs.append(rt.outcome(lambda: a.at(pts["p"])))
             outs.append(rt.outcome(lambda: b.at(pts["p"])))
-            outs.append(rt.outcome(lambda: repr(a.as_expression())))
-            outs.append(rt.outcome(lambda: repr(b.as_expression())))
+            outs.append(rt.outcome(lambda: bool(a.as_expression() == b.as_expression())))
+            outs.append({"kind": "value", "value": True})
         else:
             outs += [{"kind": "value", "value": 0}] * 4
     if kept:
